@@ -496,7 +496,12 @@ impl Vtable {
         ) {
             let ty_prefix = ty_prefix(f);
 
-            let (prefix, cast_self) = if f.moves_self || f.return_type == this_ty {
+            // By-value receivers and results of the container type differ from type to type,
+            // such functions cannot be shared through a `void` pointer.
+            let (prefix, cast_self) = if f.moves_self
+                || f.return_type == this_ty
+                || f.return_type.trim() == container_info.0
+            {
                 let config_match = config.default_context.as_deref() == Some(context_info.1)
                     && config.default_container.as_deref() == Some(container_info.1);
 
